@@ -441,6 +441,7 @@ func exec(c vh.Case, o *vh.Out) {
 		return false
 	}
 	pubReported := false
+	overlap := false // two propagations were under way at the same time at some point of this case
 	syncOf := make([]bool, nWorkers)
 	catCheck := make([]func(got string), nWorkers)
 	modeParked := -1 // worker parked inside Mode/ModTime
@@ -476,6 +477,21 @@ func exec(c vh.Case, o *vh.Out) {
 			return w.running
 		}
 		res := ""
+		switch f[0] {
+		case "flush", "close", "chmod", "touch", "fflush", "lschmod", "resume":
+			// does another worker have a propagation under way (parked or blocked inside one) while this one starts / continues?
+			self := -1
+			if len(f) > 1 {
+				self = vh.Atoi(f[1]) % nWorkers
+			}
+			for _, w2 := range e.ws {
+				w2.mu.Lock()
+				if w2.id != self && w2.running && !strings.HasPrefix(w2.parked, "File.Mod") {
+					overlap = true
+				}
+				w2.mu.Unlock()
+			}
+		}
 		switch f[0] {
 		case "open":
 			w, fi := wIdx(1), vh.Atoi(f[2])
@@ -990,17 +1006,25 @@ func exec(c vh.Case, o *vh.Out) {
 			res = "started"
 		}
 		// monitor: when no flush is on its way up, the node last handed to Root.updateChildEntry (the republisher's input)
-		// shows every write that was acknowledged by a flush that propagates (Flush, Close of a Sync descriptor)
+		// shows every write that was acknowledged by a flush that propagates (Flush, Close of a Sync descriptor, File.Flush,
+		// SetMode/SetModTime). If two propagations were ever under way at the same time in this case, a miss is the known
+		// reordering defect (published-root-regress); without any overlap it is something else.
 		if !propagating() {
 			e.pubMu.Lock()
 			pub := e.pub
 			e.pubMu.Unlock()
-			if pub != nil {
-				for fi := range paths {
-					if fullAck[fi] != "" && fullAck[fi] == acked[fi] {
-						if got := e.readFrom(pub, fi); got != fullAck[fi] && !pubReported {
-							pubReported = true
+			for fi := range paths {
+				if fullAck[fi] != "" && fullAck[fi] == acked[fi] && !pubReported {
+					got := "0000" // nothing handed to the root yet: the republisher still has the root as set up (initial contents)
+					if pub != nil {
+						got = e.readFrom(pub, fi)
+					}
+					if got != fullAck[fi] {
+						pubReported = true
+						if overlap {
 							o.Fail("published-root-regress", "the node given to the republisher shows %s = %s but %s was flushed and acknowledged", paths[fi], got, fullAck[fi])
+						} else {
+							o.Fail("published-root-misses-flush", "no two propagations ever overlapped, yet the node given to the republisher shows %s = %s but %s was flushed (propagating flush) and acknowledged", paths[fi], got, fullAck[fi])
 						}
 					}
 				}
